@@ -39,9 +39,16 @@ func (o *OvsMap) UnmarshalJSON(b []byte) (err error) {
 	var oMap []interface{}
 	o.GoMap = make(map[interface{}]interface{})
 	if err := json.Unmarshal(b, &oMap); err == nil && len(oMap) > 1 {
-		innerSlice := oMap[1].([]interface{})
+		malformed := &json.UnmarshalTypeError{Value: reflect.ValueOf(oMap).String(), Type: reflect.TypeOf(*o)}
+		innerSlice, ok := oMap[1].([]interface{})
+		if !ok || oMap[0] != "map" {
+			return malformed
+		}
 		for _, val := range innerSlice {
-			f := val.([]interface{})
+			f, ok := val.([]interface{})
+			if !ok || len(f) != 2 {
+				return malformed
+			}
 			var k interface{}
 			switch f[0].(type) {
 			case []interface{}:
